@@ -95,7 +95,8 @@ def structured_source(quick):
         ("many-params", ("fn f(" + ", ".join(f"p{i}" for i in range(300)) + ") { return p0 }\n1").encode()),
         ("many-args", ("fn f(a) { a }\nf(" + ", ".join("1" for _ in range(300)) + ")").encode()),
         ("many-globals", ("\n".join(f"let g{i} = {i}" for i in range(70000 if not quick else 3000)) + "\ng1").encode()),
-        ("many-constants", ("let mut s = 0.0\n" + "\n".join(f"s = s + {i}.5" for i in range(70000 if not quick else 3000)) + "\ns").encode()),
+        # quadratic compile time (2.5 min for 20 000 statements in the debug CLI): slow is not a crash, keep it inside the wall-clock budget
+        ("many-constants", ("let mut s = 0.0\n" + "\n".join(f"s = s + {i}.5" for i in range(6000 if not quick else 3000)) + "\ns").encode()),
         ("many-strings", ("\n".join(f'let s{i} = "str{i}"' for i in range(300)) + "\ns1").encode()),
         ("deep-recursion-run", b"fn r(n) { return r(n + 1) }\nr(0)"), ("infinite-loop", b"while true { }"),
         ("closure-chain", ("let f0 = fn(x) { x }\n" + "\n".join(f"let f{i} = fn(x) {{ f{i - 1}(x) }}" for i in range(1, 200)) + "\nf199(1)").encode()),
